@@ -236,14 +236,20 @@ class SimulationAlgorithm(BaseSimulationAlgorithm):
                 f"No configuration for this type of visit '{self.visit_type}'"
             )
 
-        self._check_params(requirements)
-
         if self.visit_type == VisitType.DATAFRAME:
             df = self.param_study["df_visits"]
-            if "ID" not in df.columns or "TIME" not in df.columns:
+            if (
+                not isinstance(df, pd.DataFrame)
+                or "ID" not in df.columns
+                or "TIME" not in df.columns
+            ):
                 raise LeaspyAlgoInputError(
                     "Dataframe needs to have columns 'ID' and 'TIME'"
                 )
+
+        self._check_params(requirements)
+
+        if self.visit_type == VisitType.DATAFRAME:
 
             if df["TIME"].isnull().any():
                 raise LeaspyAlgoInputError("Dataframe has null value in column TIME")
@@ -313,7 +319,13 @@ class SimulationAlgorithm(BaseSimulationAlgorithm):
         """
 
         if self.visit_type == VisitType.DATAFRAME:
-            patient_number = dict_param["df_visits"].groupby("ID").size().shape[0]
+            df_visits = dict_param["df_visits"]
+            # (the columns of the table are checked in `_validate_algo_parameters`)
+            patient_number = (
+                df_visits.groupby("ID").size().shape[0]
+                if "ID" in getattr(df_visits, "columns", ())
+                else 0
+            )
 
             self.param_study = {
                 "patient_number": patient_number,
